@@ -73,6 +73,9 @@ struct Shm
   // counters
   volatile long behaviours, steps, checks, instances, truncated_alt, truncated_dev, findings;
   volatile long alt_counts[8];
+  // variant machine: an exception out of a direct emplace -- the variant became valueless / kept its value
+  // (both allowed by the standard; counted as evidence, never judged)
+  volatile long band_valueless, band_kept;
 };
 extern Shm *g_shm;
 const long kMaxBad = 150;
